@@ -19,7 +19,8 @@
 (*   ovr    : Seq([ik, ok, im]) defoverrides: input key -> output key, input *)
 (*            modifiers;  roa : override-release-on-activation               *)
 (*   dl0    : 0, or -1 when the base layer cannot be followed from the text *)
-(*   seq    : [leaders : Seq(code), T, hidden]  sequence leader keys,       *)
+(*   seq    : [leaders : Seq(code), T, hidden, first]  sequence leader keys, *)
+(*            (first = first keys of the sequences longer than one key)      *)
 (*            sequence-timeout, whether the input mode is a hidden one      *)
 (*                                                                         *)
 (* A repeat written to the OS shows in the trace as ["d", code] in the out  *)
@@ -182,6 +183,9 @@ MonInit(p) ==
                         \* monitor cannot follow);   dlp = layer-switch not yet certainly processed
    dlp |-> 0 - 1,
    seqq |-> 0,          \* > 0: a sequence may be active (completeness waived)
+   lead |-> 0,          \* sharp tracking of a sequence: 0 none, 1 leader pressed while idle and quiet, 2 leader certainly processed
+   sact |-> 0,          \* > 0: a sequence is certainly still active for that many more ticks (first key of a longer sequence typed)
+   sarm |-> FALSE,      \* the first key has been pressed (not yet certainly processed)
    hid |-> {},          \* keys pressed while a hidden sequence mode may have been active, whose (swallowed) press kanata may still hold
    hidgone |-> {},      \* ... of these, the ones released since: forgotten once kanata has certainly processed the release (idle tick)
    err |-> ""]
@@ -227,14 +231,19 @@ JudgeRepeat(m, k, out) ==
       r == reps[1][2]
   IN IF Len(reps) > 1 THEN Fail(m, "C14 R1: more than one repeat emitted for one repeat event")
      ELSE IF Len(reps) = 1 /\ r \notin m.osDown
-     THEN IF m.p.seq.hidden /\ k \in m.hid
+     THEN IF m.p.seq.hidden /\ m.sact > 0
+          THEN Fail(m, "C14 R2: repeat emitted for a key that is up at the OS (swallowed by a hidden sequence that is still active: repeats are suppressed there)")
+          ELSE IF m.p.seq.hidden /\ k \in m.hid
           THEN Fail(m, "C14 R2: repeat emitted for a key that is up at the OS (its press was swallowed by a hidden sequence mode)")
           ELSE IF m.p.roa /\ \E i \in DOMAIN m.p.ovr : r \in SeqToSet(m.p.ovr[i].im) /\ m.p.ovr[i].ok \in m.osDown
           THEN Fail(m, "C14 R2: repeat emitted for a key that is up at the OS (a modifier released by an override with override-release-on-activation and not yet pressed again)")
           ELSE IF r \in ModKeys /\ m.c.unmod \cap m.osDown # {}
           THEN Fail(m, "C14 R2: repeat emitted for a key that is up at the OS (a modifier lifted by unmod / unshift)")
           ELSE Fail(m, "C14 R2: repeat emitted for a key that is up at the OS")
-     ELSE IF att = {} \/ m.seqq > 0 THEN ScanOut(m, rest)
+     \* a possibly active sequence waives completeness (hidden modes swallow the keys; when a visible sequence ends its
+     \* keys are erased) - except in visible-backspaced mode while the sequence is certainly still running after its
+     \* first key: there keys are output, and repeated, as normal
+     ELSE IF att = {} \/ (m.seqq > 0 /\ (m.p.seq.hidden \/ m.sact = 0)) THEN ScanOut(m, rest)
      ELSE IF reps = <<>>
      THEN IF m.p.roa /\ \E i \in DOMAIN m.p.ovr : m.p.ovr[i].ok \in att
           THEN Fail(m, "C14 R3a: no repeat emitted although the held key is what put an output key down (the output of an override with override-release-on-activation, while it is down)")
@@ -260,6 +269,11 @@ MonIn(m, r) ==
                            !.dlp = IF LayerOfKey(m.p.swkeys, r.c) >= 0 THEN LayerOfKey(m.p.swkeys, r.c) ELSE @,
                            !.dl = IF LayerOfKey(m.p.swkeys, r.c) >= 0 THEN 0 - 1 ELSE @,
                            !.seqq = IF isLeader \/ m.seqq > 0 THEN sq.T + SeqSlack ELSE @,
+                           \* sharp window: leader pressed while kanata is idle and nothing else is pending, processed by
+                           \* the next tick; then, as the very next press, the first key of a longer sequence
+                           !.lead = IF isLeader /\ m.recent = {} /\ m.seqq = 0 THEN 1 ELSE 0,
+                           !.sarm = ~isLeader /\ m.lead = 2 /\ InSeq(sq.first, r.c),
+                           !.sact = 0,
                            !.hid = IF isLeader \/ m.seqq > 0 THEN @ \cup {r.c} ELSE @,
                            !.hidgone = IF isLeader \/ m.seqq > 0 THEN @ \ {r.c} ELSE @]
        IN ScanOut(m1, r.out)
@@ -275,13 +289,16 @@ MonTick(m, out, idle, cb) ==
   IF m.err # "" THEN m
   ELSE LET m1 == ScanOut(m, out)
            m2 == [m1 EXCEPT !.seqq = IF @ > 0 THEN @ - 1 ELSE 0]
+           m2b == [m2 EXCEPT !.lead = IF @ = 1 THEN 2 ELSE @,
+                            !.sact = IF m2.sarm THEN (IF m2.p.seq.T > 3 THEN m2.p.seq.T - 3 ELSE 0) ELSE IF @ > 0 THEN @ - 1 ELSE 0,
+                            !.sarm = FALSE]
        IN IF idle
-          THEN [m2 EXCEPT !.recent = {}, !.lseen = m2.lpress, !.hid = @ \ m2.hidgone, !.hidgone = {},
+          THEN [m2b EXCEPT !.recent = {}, !.lseen = m2.lpress, !.hid = @ \ m2.hidgone, !.hidgone = {},
                           !.dl = IF m2.dlp >= 0 /\ m2.p.dl0 >= 0 THEN m2.dlp ELSE @, !.dlp = 0 - 1]
-          ELSE m2
+          ELSE m2b
 
 MonSilent(m, n, idle, cb) ==
   IF n = 0 \/ m.err # "" THEN m
   ELSE LET m1 == MonTick(m, <<>>, idle, cb) IN
-       [m1 EXCEPT !.seqq = IF @ > n - 1 THEN @ - (n - 1) ELSE 0]
+       [m1 EXCEPT !.seqq = IF @ > n - 1 THEN @ - (n - 1) ELSE 0, !.sact = IF @ > n - 1 THEN @ - (n - 1) ELSE 0]
 =============================================================================
